@@ -138,12 +138,15 @@ def c09(work, tier, seed, replay):
                worst_per_family=worst,
                rule="witness families instantiated at %s bytes: compression-pointer fan, one long unterminated name, identity associations and relay "
                     "messages nested as deep as the size allows, thousands of empty options / items, one DHCPv4 option repeated with maximal and "
-                    "minimal instances, ordinary messages; each decoded and re-encoded in a child process; TotalAlloc delta and reflective deep "
-                    "size recorded; non-trivial = accepted by the decoder; distinct by input" % ("1k..65507" if quick else "512..65507 (x3)"),
+                    "minimal instances, ordinary messages; plus hill-climbing mutation (%s search processes x %s evaluations, island populations seeded with "
+                    "valid messages, every option type alone, and DHCPv4 packets; objective: bytes allocated / AllocBound of the candidate) whose best "
+                    "candidates are measured the same way; each decoded and re-encoded in a child process; TotalAlloc delta and reflective deep "
+                    "size recorded; non-trivial = accepted by the decoder; distinct by input" % ("1k..65507" if quick else "512..65507 (x3)", 4 if quick else 12, 12000 if quick else 150000),
                samples=[common.trim_sample({k: v for k, v in e.items() if k != "in"}) for e in meas[:4]])
     return dict(violations=viol, known=["key=%s %s" % (k, d) for k, d in sorted(known.items())], coverage=cov, assumptions=[
         "the measured quantity (bytes allocated / retained by the real decoder) is outside TLA+; the specification contributes the cost semantics, the bounds "
-        "(constants >= 4x the worst correct measurement) and the witness shapes; there is no adversarial search",
+        "(constants >= 4x the worst correct measurement) and the witness shapes; the adversarial search is a bounded hill-climb over inputs of "
+        "at most 2048 bytes, not an exhaustive one",
         "a decode that does not finish within 25 s in its child process counts as exceeding every bound"])
 
 
